@@ -76,3 +76,65 @@ package fastcgi
 //@ use casketfile/contracts_verif.go:dispenser_api
 //@ use @verif/specs/stdlib.spec:stdlib
 //@ use @verif/specs/stdlib.spec:casket_api
+
+//@ unit fcgi_client_api props=C19,C13 nilchecks=on filter=`FCGIClient\)\.(Request|Get|Head|Options|Post)$|fastcgi\.writeHeader$`
+//@ // what the handler may rely on when a request to the responder "succeeded": a response object whose status net/http accepts
+//@ use @verif/specs/stdlib.spec:stdlib
+//@ use @verif/specs/stdlib.spec:nethttp_sinks
+//@ invariant io.EOF != nil
+//@ define usable(resp *http.Response, err error) bool = (err == nil || err == io.EOF) ==> (resp != nil && 100 <= resp.StatusCode && resp.StatusCode <= 999)
+//@ // writes to a connection do not fail with the read-side sentinel io.EOF (assumed: net.Conn.Write never returns it)
+//@ func (*FCGIClient).Do
+//@   requires c != nil
+//@   ensures result1 != io.EOF
+//@ // errors made by the library or by errors.New are not the sentinel io.EOF
+//@ extern strconv.Atoi
+//@   ensures result1 != io.EOF
+//@ extern errors.New
+//@   ensures result != nil && result != io.EOF
+//@ extern strconv.ParseInt
+//@ extern strconv.FormatInt
+//@ extern (net/http.Header).Get
+//@   pure reads MV:map[string][]string, MD:map[string][]string, E:string
+//@ func chunked
+//@   pure
+//@ func (*FCGIClient).Request
+//@   requires c != nil
+//@   modifies Response.Header, Response.StatusCode, Response.Status, Response.TransferEncoding, Response.ContentLength, Response.Body
+//@   ensures [usable_response] usable(resp, err)
+//@ func (*FCGIClient).Get
+//@   requires c != nil && p != nil
+//@   modifies Response.Header, Response.StatusCode, Response.Status, Response.TransferEncoding, Response.ContentLength, Response.Body, MV:map[string]string, MD:map[string]string
+//@   ensures [usable_response] usable(resp, err)
+//@ func (*FCGIClient).Head
+//@   requires c != nil && p != nil
+//@   modifies Response.Header, Response.StatusCode, Response.Status, Response.TransferEncoding, Response.ContentLength, Response.Body, MV:map[string]string, MD:map[string]string
+//@   ensures [usable_response] usable(resp, err)
+//@ func (*FCGIClient).Options
+//@   requires c != nil && p != nil
+//@   modifies Response.Header, Response.StatusCode, Response.Status, Response.TransferEncoding, Response.ContentLength, Response.Body, MV:map[string]string, MD:map[string]string
+//@   ensures [usable_response] usable(resp, err)
+//@ func (*FCGIClient).Post
+//@   requires c != nil && p != nil
+//@   modifies Response.Header, Response.StatusCode, Response.Status, Response.TransferEncoding, Response.ContentLength, Response.Body, MV:map[string]string, MD:map[string]string
+//@   ensures [usable_response] usable(resp, err)
+//@ func writeHeader
+//@   requires w != nil && r != nil && 100 <= r.StatusCode && r.StatusCode <= 999
+
+//@ unit request_path_sweep props=C19,C13 files=fastcgi.go nilchecks=on nonnil_params=on exclude=`Handler\)\.buildEnv$|fastcgi\.writeHeader$` filter=`.`
+//@ // request-path handling in front of the FastCGI client: zero-annotation safety sweep (index, slice, nil, division) plus
+//@ // the documented panic condition of ResponseWriter.WriteHeader as an obligation at every call site
+//@ use @verif/specs/stdlib.spec:stdlib
+//@ use @verif/specs/stdlib.spec:nethttp_sinks
+//@ use caskethttp/fastcgi/contracts_verif.go:fcgi_client_api
+//@ func DialContext
+//@   ensures result1 == nil ==> result0 != nil
+//@ // proved when buildEnv is verified (excluded for now: its map literal is too large for the current encoding)
+//@ func (Handler).buildEnv
+//@   ensures result1 == nil ==> result0 != nil
+//@ // representation invariant of the balancer built by the setup: at least one address, counter starts at -1
+//@ func (*roundRobin).Address
+//@   requires r != nil && len(r.addresses) >= 1 && r.index >= -1
+//@ // a resolver answering without error returns at least one record (net.LookupSRV reports "no such host" otherwise): assumed
+//@ extern invoke:(github.com/tmpim/casket/caskethttp/fastcgi.srvResolver).LookupSRV
+//@   ensures result2 == nil ==> (len(result1) >= 1 && forall(k, 0, len(result1), result1[k] != nil))
